@@ -432,8 +432,8 @@ func init() {
 		},
 		Run: vRunC14,
 		Meta: vMeta{
-			Level: "exploration",
-			Rule:  "case = 20 generated records through messageRecords/messageSummaries directly plus 12 through the real PUB sockets to ZMQ SUB sockets in lock step (channel 0..65535, 0..200000 samples incl. 65535-65537, signed/unsigned, extreme frames/times, NaN/Inf/denormal floats, 0..64 coefficients); every message is decoded with encoding/binary at the documented offsets and compared bit for bit; a third subscriber filtered on a 2-byte channel prefix must receive all and only that channel's records",
+			Level:       "exploration",
+			Rule:        "case = 20 generated records through messageRecords/messageSummaries directly plus 12 through the real PUB sockets to ZMQ SUB sockets in lock step (channel 0..65535, 0..200000 samples incl. 65535-65537, signed/unsigned, extreme frames/times, NaN/Inf/denormal floats, 0..64 coefficients); every message is decoded with encoding/binary at the documented offsets and compared bit for bit; a third subscriber filtered on a 2-byte channel prefix must receive all and only that channel's records",
 			Assumptions: []string{"summary header is 48 bytes (the document's prose says 36 but its own table ends at byte 48, as the property states)", "libzmq delivers in order on one connection; records are sent in lock step so the PUB high-water mark never drops one"},
 			Guards: map[string]map[string]int{
 				"quick":    {"record_msgs": 10000, "summary_msgs": 10000, "wire_roundtrips": 4000, "filtered_received": 1000},
